@@ -38,6 +38,37 @@ func singleOp(t *Ty, vw view.View, o hop, h tree.HashFn) string {
 			s.push(t, vw)
 			o.h = 0
 			return s.exec(o)
+		case "setsumm":
+			// the value written is itself summarised: a view over the single leaf that holds the
+			// root of (o.src.t, o.src.v); the destination has been hashed before
+			sv, err := buildView(o.src.t, o.src.v)
+			if err != nil {
+				return "ERR"
+			}
+			r := sv.HashTreeRoot(h)
+			src, err := o.src.t.Def().ViewFromBacking(&r, nil)
+			if err != nil {
+				return "ERR"
+			}
+			vw.HashTreeRoot(h)
+			switch x := vw.(type) {
+			case *view.ComplexVectorView:
+				err = x.Set(o.i, src)
+			case *view.ComplexListView:
+				err = x.Set(o.i, src)
+			case *view.ContainerView:
+				err = x.Set(o.i, src)
+			default:
+				return "ERR"
+			}
+			if err != nil {
+				return "ERR"
+			}
+			ser := "ERR"
+			if d, err := serializeView(vw); err == nil {
+				ser = hexBytes(d)
+			}
+			return "OK_" + rootHex(vw.HashTreeRoot(h)) + "_" + ser
 		}
 		cnt := 0
 		s := &hstate{h: h, count: &cnt}
@@ -61,6 +92,8 @@ func c12OpSexp(o hop) string {
 		return "(" + o.kind + ")"
 	case "elem":
 		return "(elem " + hx(o.i) + ")"
+	case "setsumm":
+		return "(setsumm " + hx(o.i) + " " + hx(uint64(o.h)) + " " + o.src.Sexp() + ")"
 	case "set":
 		return "(set " + hx(o.i) + " " + o.src.Sexp() + ")"
 	case "append":
@@ -181,6 +214,37 @@ func TestC12(t *testing.T) {
 				if o.kind == "set" || o.kind == "append" || o.kind == "pop" || o.kind == "change" {
 					if o.h == 0 && o.src.kind != "h" {
 						ops = append(ops, o)
+					}
+				}
+			}
+			// writes of a summarised value: the element's own summary, its sibling's, a fresh one
+			if (ty.Kind == "vec" || ty.Kind == "list" || ty.Kind == "cont") && !isPackedOrBits(ty) && ln > 0 {
+				var depth uint64
+				switch ty.Kind {
+				case "vec":
+					depth = uint64(tree.CoverDepth(ty.N))
+				case "list":
+					depth = uint64(tree.CoverDepth(ty.N)) + 1
+				default:
+					depth = uint64(tree.CoverDepth(uint64(len(ty.Fields))))
+				}
+				if depth < 40 {
+					for j := 0; j < 4; j++ {
+						i := uint64(g.r.Int63n(int64(ln)))
+						et := elemTyOf(ty, i)
+						if et == nil || !isComposite(et) {
+							continue
+						}
+						var sv *Val
+						switch k := i ^ 1; {
+						case j%2 == 0 && k < ln && elemTyOf(ty, k) != nil && elemTyOf(ty, k).Sexp() == et.Sexp():
+							sv = v.Seq[k] // the sibling's value
+						case j == 1:
+							sv = v.Seq[i] // its own
+						default:
+							sv = g.val(et)
+						}
+						ops = append(ops, hop{kind: "setsumm", i: i, h: int(uint64(1)<<depth | i), src: srcSpec{kind: "lit", t: et, v: sv}})
 					}
 				}
 			}
